@@ -596,7 +596,8 @@ def _map_wmsc_validators(ex, st, post, result):
     tiled = ex.truth(st, ex.opaque_field_at(st, resp[-1], q, 'tiled_only'))
     ci = ex.opaque_field_at(st, ch_first(st, resp[-1]), img, 'cacheable')
     is_ci = z3.Function('opaque_isinstance_mapproxy_cache_tile_CacheInfo', ObjSort, z3.BoolSort())(ci.t)
-    cond = z3.And(tiled, is_ci)
+    # ... of a tile that MAY be cached: CacheInfo(cacheable=False) (an upstream error mapped to an uncached fill image) is falsy
+    cond = z3.And(tiled, is_ci, ex.truth(st, ci))
     ch = [(i, e) for i, e in T.evs(st, 'cache_headers') if 'etag_data' in e.kwargs]
     mc = [(i, e) for i, e in T.evs(st, 'make_conditional')]
     have = len(ch) == 1 and len(mc) == 1 and ch[0][0] < mc[0][0]
@@ -618,7 +619,7 @@ def _map_wmsc_validators(ex, st, post, result):
                        z3.BoolVal(len(ma) == 1), eq(ma[0], http) if len(ma) == 1 else z3.BoolVal(False))
     none = z3.BoolVal(not ch and not mc)
     yield ('wmsc_tile_validators_and_conditional_answer', z3.If(cond, g, none),
-           'a tiled (WMS-C) answer whose image carries the CacheInfo of a cached tile gets cache_headers(timestamp, '
+           'a tiled (WMS-C) answer whose image carries the CacheInfo of a cached, CACHEABLE tile gets cache_headers(timestamp, '
            'etag_data=(timestamp, size), max_age=max_tile_age) and is then made conditional on the request headers; any other '
            'map answer gets neither validators nor a 304')
 
